@@ -33,7 +33,7 @@ LEAN_MODULES = {
     "C04": ["TFV.Properties.Rng"],
     "C05": ["TFV.Properties.EA", "TFV.Properties.Src.Engine"],
     "C06": ["TFV.Properties.BinOps", "TFV.Properties.Runs", "TFV.Properties.Src.BinKernels", "TFV.Properties.Src.BinKernels2", "TFV.Properties.Src.GATrial", "TFV.Properties.Src.ShagaTrial"],
-    "C07": ["TFV.Properties.DE", "TFV.Properties.Runs", "TFV.Properties.Src.BoundsControl", "TFV.Properties.Src.Binomial", "TFV.Properties.Src.Donors", "TFV.Properties.Src.DETrial"],
+    "C07": ["TFV.Properties.DE", "TFV.Properties.Runs", "TFV.Properties.Src.BoundsControl", "TFV.Properties.Src.Binomial", "TFV.Properties.Src.Donors", "TFV.Properties.Src.DETrial", "TFV.Properties.Src.Pbest"],
     "C08": ["TFV.Properties.Tree", "TFV.Properties.TreeCR", "TFV.Properties.Runs", "TFV.Properties.Src.Levels", "TFV.Properties.Src.Shrink", "TFV.Properties.Src.StandardX", "TFV.Properties.Src.OnePointGP", "TFV.Properties.Src.GrowMut", "TFV.Properties.Src.PointMut", "TFV.Properties.Src.Swap", "TFV.Properties.Src.Grow", "TFV.Properties.Src.GPTrial"],
     "C09": ["TFV.Properties.Tree", "TFV.Properties.TreeCR", "TFV.Properties.Src.TreeIdx", "TFV.Properties.Src.CommonRegion", "TFV.Properties.Src.TreeMethods",
             "TFV.Properties.Src.StandardX", "TFV.Properties.Src.OnePointGP"],
@@ -61,7 +61,7 @@ SRC_KERNELS = {
             "uniform_proportional_crossover", "uniform_rank_crossover", "empty_crossover", "GA_get_new_individ_g", "SHAGA_get_new_individ_g",
             "random_sample", "check_for_value", "sattolo_shuffle", "random_weighted_sample", "binary_search_interval"],
     "C07": ["bounds_control", "binomial", "best_1", "rand_1", "rand_to_best1", "current_to_best_1", "best_2", "rand_2",
-            "current_to_pbest_1_archive", "DE_get_new_individ_g", "SHADE_get_new_individ_g", "random_sample", "check_for_value", "sattolo_shuffle", "random_weighted_sample", "binary_search_interval"],
+            "current_to_pbest_1_archive", "DE_get_new_individ_g", "SHADE_get_new_individ_g", "find_pbest_id", "argsort_k", "random_sample", "check_for_value", "sattolo_shuffle", "random_weighted_sample", "binary_search_interval"],
     "C08": ["get_levels_tree_from_i", "find_end_subtree_from_i", "find_id_args_from_i", "Tree_subtree_id", "Tree_subtree", "Tree_concat", "shrink_mutation",
             "Tree_get_levels", "Tree_get_max_level", "standard_crossover",
             "find_first_difference_between_two", "common_region_two_trees", "Tree_get_common_region", "one_point_crossoverGP", "growing_mutation", "Tree_get_args_id", "point_mutation", "swap_mutation",
@@ -70,7 +70,7 @@ SRC_KERNELS = {
             "Tree_subtree_id", "Tree_subtree", "Tree_concat", "get_levels_tree_from_i", "Tree_get_levels", "Tree_get_max_level",
             "standard_crossover", "Tree_get_common_region", "one_point_crossoverGP"],
     "C11": ["binary_search_interval", "check_for_value", "argsort_k", "tournament_selection", "proportional_selection", "rank_selection", "sattolo_shuffle", "random_sample", "random_weighted_sample"],
-    "C14": ["SelfCGA_adapt", "PDPGA_get_new_individ_g", "GA_get_new_individ_g", "GP_get_new_individ_g"],
+    "C14": ["SelfCGA_adapt", "PDPGA_get_new_individ_g", "PDPGP_get_new_individ_g", "GA_get_new_individ_g", "GP_get_new_individ_g"],
     "C15": ["SHADE_generate_F_CR", "SHADE_update_u_F", "DE_greedy_replacement", "jDE_greedy_replacement", "SHADE_bookkeeping", "SHAGA_bookkeeping"],
     "C16": ["get_n_jobs", "EA_split_population"],
     "C17": ["EA_update_data"],
